@@ -318,4 +318,104 @@ theorem readyOk_modifyCbs (p : Nat) (g : List Cb → List Cb) (s : St) (n : Nat)
   · have := modifyProxy_alive_ids p (fun q => { q with cbs := g q.cbs }) (fun _ => rfl) (fun _ => rfl) s.proxies
     simp only []; rw [this]; exact h10
 
+theorem proxOk_modifyCbs (p : Nat) (g : List Cb → List Cb) (s : St) (n : Nat) (h : ProxOk s) (hn : s.nextCb ≤ n)
+    (hg : ∀ l : List Cb, (l.map (·.id)).Nodup → (∀ c ∈ l, c.id < s.nextCb) →
+      ((g l).map (·.id)).Nodup ∧ ∀ c ∈ g l, c.id < n) :
+    ProxOk { s with proxies := modifyProxy p (fun q => { q with cbs := g q.cbs }) s.proxies, nextCb := n } := by
+  obtain ⟨h5, h6, h7, h8, h9, h10⟩ := h
+  refine ⟨?_, ?_, ?_, ?_, h9, ?_⟩
+  · have := modifyProxy_ids p (fun q => { q with cbs := g q.cbs }) (fun _ => rfl) s.proxies
+    simp only []; rw [this]; exact h5
+  · intro q hq
+    rcases mem_modifyProxy hq with hq | ⟨q0, hq0, _, rfl⟩
+    · exact h6 q hq
+    · exact h6 q0 hq0
+  · intro q hq
+    rcases mem_modifyProxy hq with hq | ⟨q0, hq0, _, rfl⟩
+    · exact h7 q hq
+    · exact (hg q0.cbs (h7 q0 hq0) (h8 q0 hq0)).1
+  · intro q hq c hc
+    rcases mem_modifyProxy hq with hq | ⟨q0, hq0, _, rfl⟩
+    · exact Nat.lt_of_lt_of_le (h8 q hq c hc) hn
+    · exact (hg q0.cbs (h7 q0 hq0) (h8 q0 hq0)).2 c hc
+  · have := modifyProxy_alive_ids p (fun q => { q with cbs := g q.cbs }) (fun _ => rfl) (fun _ => rfl) s.proxies
+    simp only []; rw [this]; exact h10
+
+/-- Whatever a callback does while `connectionLost` runs, the proxies / registry part of the invariant
+survives, and the registry only grows. -/
+theorem react_proxOk (w : Who) (r : Reaction) (s : St) (h : ProxOk s) :
+    ProxOk (react .repaired w r s) ∧ RegMono s (react .repaired w r s) := by
+  cases r with
+  | nothing => exact ⟨h, RegMono.refl s⟩
+  | newCall => exact ⟨proxOk_congr h rfl rfl rfl (Nat.le_refl _), fun e he => he⟩
+  | unregisterSelf =>
+    cases w with
+    | connCb c => exact ⟨proxOk_congr h rfl rfl rfl (Nat.le_refl _), fun e he => he⟩
+    | errback c => exact ⟨h, RegMono.refl s⟩
+    | proxyCb p c =>
+      exact ⟨proxOk_modifyCbs p (fun l => removeCb c.id l) s s.nextCb h (Nat.le_refl _)
+        (fun l hnd hlt => ⟨hnd.sublist ((removeCb_sublist c.id l).map _),
+          fun d hd => hlt d ((removeCb_sublist c.id l).subset hd)⟩), fun e he => he⟩
+  | registerAnother =>
+    cases w with
+    | connCb c => exact ⟨proxOk_congr h rfl rfl rfl (Nat.le_succ _), fun e he => he⟩
+    | errback c => exact ⟨proxOk_congr h rfl rfl rfl (Nat.le_succ _), fun e he => he⟩
+    | proxyCb p c =>
+      exact ⟨proxOk_modifyCbs p (fun l => l ++ [(⟨s.nextCb, Reaction.nothing⟩ : Cb)]) s (s.nextCb + 1) h (Nat.le_succ _)
+        (fun l hnd hlt => ⟨by
+          simp only [List.map_append, List.map_cons, List.map_nil]
+          exact nodup_append_fresh hnd (fun x hx => by
+            obtain ⟨c, hc, rfl⟩ := List.mem_map.mp hx
+            exact hlt c hc), by
+          intro c hc
+          simp only [List.mem_append, List.mem_singleton] at hc
+          rcases hc with hc | rfl
+          · exact Nat.lt_succ_of_lt (hlt c hc)
+          · exact Nat.lt_succ_self _⟩), fun e he => he⟩
+  | newProxy =>
+    obtain ⟨h1, h2⟩ := proxOk_makeProxyCbs 0 true [⟨s.nextCb, .nothing⟩] (s.nextCb + 1) s h (Nat.le_succ _)
+      (by simp) (by simp)
+    refine ⟨?_, ?_⟩
+    · cases w <;> exact h1
+    · intro e he
+      have : e ∈ (makeProxyCbs .repaired 0 true [⟨s.nextCb, .nothing⟩] s).registry := by rw [h2]; simp [he]
+      cases w <;> exact this
+
+theorem proxOk_emit (s : St) (f : Fx) (h : ProxOk s) : ProxOk (s.emit f) :=
+  proxOk_congr h rfl rfl rfl (Nat.le_refl _)
+
+theorem runConnCbs_proxOk (cbs : List Cb) : ∀ s : St, ProxOk s →
+    ProxOk (runConnCbs .repaired cbs s) ∧ RegMono s (runConnCbs .repaired cbs s) := by
+  induction cbs with
+  | nil => intro s h; exact ⟨h, RegMono.refl s⟩
+  | cons c t ih =>
+    intro s h
+    obtain ⟨a1, a2⟩ := react_proxOk (.connCb c) c.react (s.emit (.connCb c.id)) (proxOk_emit s _ h)
+    obtain ⟨b1, b2⟩ := ih (runConnCb .repaired c s) a1
+    exact ⟨b1, RegMono.trans (a := s) (fun e he => a2 e he) b2⟩
+
+theorem failCall_proxOk (c : Call) (s : St) (h : ProxOk s) :
+    ProxOk (failCall .repaired c s) ∧ RegMono s (failCall .repaired c s) := by
+  unfold failCall
+  cases c.timed
+  · simp only [Bool.false_eq_true, if_false]
+    obtain ⟨a1, a2⟩ := react_proxOk (.errback c) (reactionOf c.kind) (s.emit (.callErr c.serial (errKindOf c.kind)))
+      (proxOk_emit s _ h)
+    exact ⟨a1, fun e he => a2 e he⟩
+  · simp only [if_true]
+    have h' : ProxOk ({ s with timers := s.timers.filter (· ≠ c.serial), log := s.log ++ [Fx.timerCancelled c.serial] }.emit
+        (Fx.callErr c.serial (errKindOf c.kind))) := proxOk_congr h rfl rfl rfl (Nat.le_refl _)
+    obtain ⟨a1, a2⟩ := react_proxOk (.errback c) (reactionOf c.kind) _ h'
+    exact ⟨a1, fun e he => a2 e he⟩
+
+theorem failCalls_proxOk (calls : List Call) : ∀ s : St, ProxOk s →
+    ProxOk (failCalls .repaired calls s) ∧ RegMono s (failCalls .repaired calls s) := by
+  induction calls with
+  | nil => intro s h; exact ⟨h, RegMono.refl s⟩
+  | cons c t ih =>
+    intro s h
+    obtain ⟨a1, a2⟩ := failCall_proxOk c s h
+    obtain ⟨b1, b2⟩ := ih (failCall .repaired c s) a1
+    exact ⟨b1, a2.trans b2⟩
+
 end Txdbus.Client.Lifecycle
